@@ -128,8 +128,13 @@ class Abort(Exception):
     pass
 
 
-FAIL_REPLIES_PERM = [('550', '5.1.1 user unknown'), ('554', '5.7.1 refused'), ('550', '5.2.2 mailbox full')]
-FAIL_REPLIES_TEMP = [('450', '4.2.0 try later'), ('451', '4.3.0 busy'), ('450', '4.2.1 disabled for now')]
+# neighbours differ in exactly one component: enhanced status code only, reply code only, text only
+FAIL_REPLIES_PERM = [('550', '5.1.1 rejected'), ('550', '5.7.1 rejected'), ('554', '5.7.1 rejected'), ('550', '5.1.1 mailbox unknown')]
+FAIL_REPLIES_TEMP = [('450', '4.2.0 try later'), ('450', '4.2.1 try later'), ('451', '4.2.1 try later'), ('450', '4.2.0 busy')]
+NREP = 4
+
+# slot holders (entry function > blocking call inside slimta.queue) of the bounded-pool deadlock recorded as a known finding
+KNOWN_JAM_HOLDERS = {'_dequeue>_pool_spawn', '_retry_later>_pool_spawn', '_wait_store'}
 
 
 class ScriptRelay(Relay):
@@ -375,11 +380,34 @@ class Engine(object):
             which = 'relay_pool (size %d)' % rp.size
         if which:
             self.jam_seen = which
+            self.jam_shape = self._jam_shape(sp if which.startswith('store') else rp)
+            # the recorded finding covers the slot holders observed on the unchanged tree; any other holder is a new deadlock
+            extra = sorted(c for c in self.jam_shape.split('+') if c not in KNOWN_JAM_HOLDERS)
+            suffix = (':' + '+'.join(extra)) if extra else ''
             msg = ('%s is full although no storage or relay operation is running: greenlets holding its slots wait for '
-                   'further slots (nested spawn into a bounded pool); nothing can make progress any more' % which)
-            self.failures.append(('C01', 'C01:bounded-pool-deadlock', msg))
-            self.failures.append(('C12', 'C12:bounded-pool-deadlock', msg))
+                   'further slots (nested spawn into a bounded pool); nothing can make progress any more [slot holders: %s]'
+                   % (which, self.jam_shape))
+            self.failures.append(('C01', 'C01:bounded-pool-deadlock' + suffix, msg))
+            self.failures.append(('C12', 'C12:bounded-pool-deadlock' + suffix, msg))
+            if any('_bounce' in c for c in extra):
+                self.failures.append(('C13', 'C13:bounce-never-enqueued:bounded-pool-deadlock' + suffix, msg))
             self.dead = True
+
+    def _jam_shape(self, pool):
+        """Which queue functions hold the slots of the full pool, and where they block (call sites inside slimta.queue)."""
+        shapes = set()
+        for gr in list(pool.greenlets):
+            f = getattr(gr, 'gr_frame', None)
+            names = []
+            while f is not None:
+                if f.f_code.co_filename.endswith('slimta/queue/__init__.py'):
+                    names.append(f.f_code.co_name)
+                f = f.f_back
+            if names:
+                shapes.add('%s>%s' % (names[-1], names[0]) if len(names) > 1 else names[0])
+            else:
+                shapes.add('?')
+        return '+'.join(sorted(shapes))
 
     def flight(self):
         return _Flight(self)
@@ -531,9 +559,9 @@ class Engine(object):
                     m.state[r] = 'ok'
                 elif kind == 'perm':
                     m.state[r] = 'fail'
-                    groups.setdefault(FAIL_REPLIES_PERM[k % 3], []).append(r)
+                    groups.setdefault(FAIL_REPLIES_PERM[k % NREP], []).append(r)
                 else:
-                    rep = FAIL_REPLIES_TEMP[k % 3]
+                    rep = FAIL_REPLIES_TEMP[k % NREP]
                     if shape == 'raise_x':
                         rep = ('450', '4.0.0 Unhandled delivery error: boom')
                     temps.append((r, rep))
@@ -558,10 +586,10 @@ class Engine(object):
         if shape == 'reply':
             return Reply('250', '2.0.0 accepted')
         if shape == 'raise_t':
-            c, t = FAIL_REPLIES_TEMP[rsel[0] % 3]
+            c, t = FAIL_REPLIES_TEMP[rsel[0] % NREP]
             raise TransientRelayError('transient', Reply(c, t))
         if shape == 'raise_p':
-            c, t = FAIL_REPLIES_PERM[rsel[0] % 3]
+            c, t = FAIL_REPLIES_PERM[rsel[0] % NREP]
             raise PermanentRelayError('permanent', Reply(c, t))
         if shape == 'raise_x':
             raise RuntimeError('boom')
@@ -570,10 +598,10 @@ class Engine(object):
             if kind == 'ok':
                 vals.append(None if k % 2 else Reply('250', '2.0.0 ok'))
             elif kind == 'perm':
-                c, t = FAIL_REPLIES_PERM[k % 3]
+                c, t = FAIL_REPLIES_PERM[k % NREP]
                 vals.append(PermanentRelayError('perm', Reply(c, t)))
             else:
-                c, t = FAIL_REPLIES_TEMP[k % 3]
+                c, t = FAIL_REPLIES_TEMP[k % NREP]
                 vals.append(TransientRelayError('temp', Reply(c, t)))
         if shape == 'seq':
             return vals
